@@ -6,6 +6,7 @@ import FinProtoc.Dsl.Parser
 import FinProtoc.Bytes
 import FinProtoc.Spec
 import FinProtoc.SpecOf
+import FinProtoc.Typed
 import FinProtoc.IR
 import FinProtoc.Conforms
 import FinProtoc.Explain
